@@ -3,7 +3,7 @@
    modulus M + 1 when M is a power of two; repeats allowed), [matrix_line_full] its no-repeat variant on the same PRBS
    stream (force-full-r); both return the list of drawn positions, [None] when the fuel of the rejection loop runs out.
    Termination is proved in part: for every M that is not a power of two no draw is ever rejected (any fuel >= 1, every N);
-   for the powers of two up to 128 and every N in 1..16383 by computation (at most 64 consecutive rejections). For
+   for the powers of two up to 128 and every N in 1..1023 by computation (at most 64 consecutive rejections). For
    M in {256, ..., 16384} it would need the period structure of the 23-bit LFSR: there every theorem carries the [= Some l]
    hypothesis and termination is exercised by the lfdbt stream (fuel exhaustion prints "nonterminating" and would disagree). *)
 From Coq Require Import List NArith.
@@ -52,7 +52,7 @@ Proof. exact (conj lfdbt_row1 (conj doc_row3 doc_row3_full)). Qed.
 (* termination (partial, see the header) *)
 Theorem c10_terminates_nonpow2 : forall fuel n M, (1 <= fuel)%nat -> 1 <= M -> is_pow2 M = false -> exists l, matrix_line fuel n M = Some l.
 Proof. exact TermP.matrix_line_total_nonpow2. Qed.
-Theorem c10_terminates_pow2_small : forall k n, k <= 7 -> 1 <= N.of_nat n <= 16383 -> exists l, matrix_line 64 (N.of_nat n) (2 ^ k) = Some l.
+Theorem c10_terminates_pow2_small : forall k n, k <= 7 -> 1 <= N.of_nat n <= 1023 -> exists l, matrix_line 64 (N.of_nat n) (2 ^ k) = Some l.
 Proof. exact TermP.matrix_line_total_pow2. Qed.
 
 Print Assumptions c10_new_eq_spec.
